@@ -61,6 +61,7 @@ struct Elem {
     virtual double reportedDissipation(FCase&, const State&) { return NaN; }
     virtual void actionScale(FCase&, const State&, const Ref* r, double& aF, double& aM) { if (r) { aF = r->aF; aM = r->aM; } }
     virtual double fdStepFor(FCase&, const State&) { return fdStep; }
+    virtual bool yankOutPresent(FCase&, const State&) { return false; }
     virtual bool pureTwoBody() { return true; }   // false when a third body takes part (cable via point)
     virtual Json describe() { return Json::obj(); }
 };
